@@ -21,6 +21,7 @@ RULES = {
     'R13': ('r13_grammar', 'GRAMMAR: the visitor consumes everything the grammar can produce'),
     'R14': ('r14_term', 'TERM: evaluator recursion/loops have a structural termination argument'),
     'R19': ('r19_flow', 'FLOW/T9: evaluator skeleton and set-operator construction'),
+    'R17': ('r17_tables', 'TABLE: decision tables of small pure functions equal the reference tables'),
     'R8': ('r08_codec', 'CODEC: writer and reader tables of the dict codecs agree'),
 }
 
@@ -210,6 +211,22 @@ _p('C07', 'Saving and loading a model preserves it (JSON and YAML)',
    anchors=[('R8', 'Model._from_dict'), ('R8', 'Model._to_dict'), ('R8', 'Model.load_from_file'),
             ('R4', 'Model.add_asset'), ('R4', 'Model.add_attacker')], floor=30)
 
+_p('C08', 'Viability/necessity labels are the greatest fixed point, in any node order',
+   ['R17', 'R12', 'R1'],
+   decided=['R17 T1/T2: per-type viability and necessity equations (exist / notExist / defense from status, or = '
+            'exists / and = forall over parents and dually) equal the reference tables',
+            'R17 T3/T4: propagation recomputes or-children by an exists-fold, forces and-children false (viability) '
+            'and dually for necessity, recurses exactly on change; the TTC gate is applied both where a node '
+            'transmits and where a child re-reads its parents (order independence of and-children)',
+            'R17 T5: only exist / notExist / defense nodes are evaluated from status, propagation starts exactly '
+            'from non-viable / non-necessary ones',
+            'R12: evaluate_viability / evaluate_necessity have a case for each of the 5 step types'],
+   undecided=['that chaotic iteration reaches the greatest fixed point on every graph (lattice argument)',
+              'self-loops on or-nodes'],
+   anchors=[('R17', 'evaluate_viability'), ('R17', 'evaluate_necessity'),
+            ('R17', 'propagate_viability_from_node'), ('R17', 'propagate_necessity_from_node'),
+            ('R17', 'calculate_viability_and_necessity')], floor=5)
+
 _p('C09', 'Attack-graph structure and lookup indexes stay consistent in any history',
    ['R1', 'R2', 'R3', 'R4', 'R7'],
    decided=['R1: no loop of the attack-graph layer removes from the list it walks',
@@ -256,11 +273,25 @@ _p('C11', 'Attackers and nodes always agree on what is compromised',
             ('R2', 'Attacker.undo_compromise'), ('R2', 'AttackGraph.remove_attacker'),
             ('R7', 'AttackGraph.__deepcopy__')])
 
+_p('C12', 'Attack-surface queries follow their definition; incremental = recomputed',
+   ['R17', 'R12'],
+   decided=['R17 T7: is_node_traversable_by_attacker equals: viable and (or-step, or and-step all of whose '
+            'necessary parents THIS attacker compromised)',
+            'R17 T8: is_enabled_defense / is_available_defense and the two defense surfaces equal their definitions; '
+            'get_attack_surface and update_attack_surface_add_nodes filter children by the same traversability '
+            'predicate and the same de-duplication test, over reached steps resp. the supplied nodes',
+            'R12: the traversability dispatcher has a case for every step type'],
+   undecided=['incremental = recomputed as a set equation over histories', 'purity of the queries (R11, not built)'],
+   anchors=[('R17', 'is_node_traversable_by_attacker'), ('R17', 'get_attack_surface'),
+            ('R17', 'update_attack_surface_add_nodes'), ('R17', 'get_defense_surface')], floor=6)
+
 _p('C13', 'Pruning removes exactly the non-viable or unnecessary attack steps',
-   ['R1', 'R2', 'R3'],
+   ['R1', 'R2', 'R3', 'R17'],
    decided=['R1: the pruning loop does not remove from the node list it walks (every prunable '
             'node is visited)',
-            'R2/R3 on remove_node: neighbours, attackers, entry points and both indexes are cleaned'],
+            'R2/R3 on remove_node: neighbours, attackers, entry points and both indexes are cleaned',
+            'R17 T6: a node is removed iff type in {or, and} and (not viable or not necessary), through '
+            'remove_node, over a snapshot, with no write to a label'],
    undecided=['that remove_node leaves a C09-consistent graph for every graph shape'],
    anchors=[('R1', 'prune_unviable_and_unnecessary_nodes'), ('R2', 'AttackGraph.remove_node'),
             ('R3', 'AttackGraph.remove_node')],
